@@ -90,6 +90,7 @@ func main() {
 	race := flag.Bool("race", false, "happens-before race detection")
 	out := flag.String("out", "", "summary json")
 	open := flag.String("open-classes", "", "comma separated known-finding classes that are open")
+	own := flag.String("own", "", "comma separated assertion label prefixes owned by the property under check (empty = all)")
 	prefix := flag.String("prefix", "", "run a single path with this decision prefix (comma separated)")
 	sampleEvery := flag.Int("sample-every", 0, "keep the replay vector of every n-th path")
 	trace := flag.Bool("trace", false, "trace")
@@ -119,6 +120,11 @@ func main() {
 			panic(err)
 		}
 		cfg.Bounds[p[0]] = v
+	}
+	for _, o := range strings.Split(*own, ",") {
+		if o != "" {
+			cfg.Own = append(cfg.Own, o)
+		}
 	}
 	for _, c := range strings.Split(*open, ",") {
 		if c != "" {
